@@ -172,6 +172,21 @@ func applyMod(lm message.Message, p *codec.Packet, m Mod) (ok bool, err error) {
 		return true, nil
 	case *message.SubscribeMessage:
 		switch m.K {
+		case "requalify":
+			// AddTopic of a filter that is already in the list replaces its QoS (by another value)
+			if len(p.Topics) == 0 {
+				return false, nil
+			}
+			i := m.V % len(p.Topics)
+			q := (p.QoSs[i] + 1 + byte(m.V/7%2)) % 3
+			if err := c.AddTopic(append([]byte(nil), p.Topics[i]...), q); err != nil {
+				return true, err
+			}
+			for j := range p.Topics { // the list holds a filter once; repeated entries of the reference packet follow
+				if bytes.Equal(p.Topics[j], p.Topics[i]) {
+					p.QoSs[j] = q
+				}
+			}
 		case "addtopic":
 			if len(m.B) == 0 {
 				return false, nil
@@ -316,6 +331,16 @@ func checkModify(c ModCase) (fail string, applied int) {
 	if df := diff(fieldsOf(lm), p); df != "" {
 		return fmt.Sprintf("%s and then changed through %v: getters disagree with what was set: %s", name, hist, df), applied
 	}
+	// the caller's output buffer is the caller's: when it is reused, the message
+	// still is what it was (encoding it again gives the same packet)
+	for i := range out {
+		out[i] = 0
+	}
+	out2 := sentinel(len(want) + 8)
+	n2, err := lm.Encode(out2)
+	if err != nil || n2 != len(want) || !bytes.Equal(out2[:n2], want) {
+		return fmt.Sprintf("%s and then changed through %v: after the buffer of the first Encode was overwritten, a second Encode returned (%d, %v) and differs at byte %d from the first packet: the message kept a reference into the caller's buffer", name, hist, n2, err, firstDiff(out2[:min(n2, len(want))], want)), applied
+	}
 	return "", applied
 }
 
@@ -336,7 +361,7 @@ func TestC03Modify(t *testing.T) {
 		codec.PUBLISH:     {"qos", "qos", "retain", "dup", "pid", "topic", "payload"},
 		codec.CONNECT:     {"keepalive", "clean", "clientid", "willqos", "willretain", "username", "password", "willmsg"},
 		codec.CONNACK:     {"sp", "code"},
-		codec.SUBSCRIBE:   {"addtopic", "pid"},
+		codec.SUBSCRIBE:   {"addtopic", "pid", "requalify", "requalify"},
 		codec.UNSUBSCRIBE: {"addtopic", "pid"},
 		codec.SUBACK:      {"addcode", "pid"},
 	}
